@@ -19,6 +19,8 @@ def run_c03(res, tier):
     import mirrules
     from mir import load_facts
     mirrules.run_layout_rules(res, load_facts(), ast)
+    import iolim
+    iolim.run_io_map(res, ast)       # ',' stores the next byte or 0 at end of input: part of C03's statement
     return extra
 
 
@@ -112,6 +114,8 @@ def run_c02(res, tier):
     import moves, passes
     moves.run_moves(res, ast)
     passes.run_pass_kill(res, ast)
+    import iolim
+    iolim.run_io_map(res, ast)       # ',' stores the next byte or 0 at end of input: part of C02's statement
     if tier == "thorough":
         import mirrules
         from mir import load_facts
